@@ -77,7 +77,8 @@ func Quote(s string, lang LangVariant) (string, error) {
 		case '\x00':
 			return "", &QuoteError{ByteOffset: offs, Message: quoteErrNull}
 		}
-		if r == utf8.RuneError || !unicode.IsPrint(r) {
+		// Note that a valid U+FFFD decodes as utf8.RuneError with size 3.
+		if (r == utf8.RuneError && size == 1) || !unicode.IsPrint(r) {
 			if lang.in(LangPOSIX) {
 				return "", &QuoteError{ByteOffset: offs, Message: quoteErrPOSIX}
 			}
@@ -108,7 +109,7 @@ func Quote(s string, lang LangVariant) (string, error) {
 			case r == '\'', r == '\\':
 				b.WriteByte('\\')
 				b.WriteRune(r)
-			case unicode.IsPrint(r) && r != utf8.RuneError:
+			case unicode.IsPrint(r) && !(r == utf8.RuneError && size == 1):
 				if lastRequoteIfHex && isHex(r) {
 					b.WriteString("'$'")
 				}
